@@ -401,7 +401,7 @@ def run(chk):
     disagreements = []
     dist = {"runs": 0, "killed": 0, "exit0": 0, "exit1": 0, "exit2": 0, "cross": 0, "syscall_level": 0}
     try:
-        cases = base_cases() + random_cases(chk.rng, 60 if thorough else 6)
+        cases = base_cases() + random_cases(chk.rng, 250 if thorough else 6)
         import time
         t0 = time.time()
         with ThreadPoolExecutor(vlib.NCPU) as ex:
